@@ -1,8 +1,8 @@
 package main
 
 import (
-	"go/constant"
 	"fmt"
+	"go/constant"
 	"go/token"
 	"go/types"
 	"sort"
@@ -29,9 +29,9 @@ type freshness struct {
 // axiomFresh: functions whose result is a new deep copy / new object by
 // contract (their bodies go through reflect and cannot be analysed).
 var axiomFresh = map[string]bool{
-	"github.com/ovn-org/libovsdb/model.Clone":                       true,
-	"(github.com/ovn-org/libovsdb/model.DatabaseModel).NewModel":    true,
-	"github.com/ovn-org/libovsdb/model.CreateModel":                 true,
+	"github.com/ovn-org/libovsdb/model.Clone":                           true,
+	"(github.com/ovn-org/libovsdb/model.DatabaseModel).NewModel":        true,
+	"github.com/ovn-org/libovsdb/model.CreateModel":                     true,
 	"(*github.com/ovn-org/libovsdb/ovsdb/serverdb.Database).CloneModel": true,
 }
 
@@ -686,7 +686,7 @@ func ruleA1p(p *Program, r *Reporter) {
 	}
 	allowed := map[string]string{
 		"(*database/transaction.Transaction).checkIndexes": "only passes rows to the read-only IndexExists/CheckIndexes",
-		"(*client.predicateConditional).Matches":            "clones every row it returns",
+		"(*client.predicateConditional).Matches":           "clones every row it returns",
 	}
 	ci := getCallIndex(p)
 	f := getFreshness(p)
@@ -763,22 +763,22 @@ func ruleA2(p *Program, r *Reporter) {
 // inPlaceArg: functions of package updates that modify an argument in place
 // through reflect (confirmed by reading; reflect stores are invisible to SSA).
 var inPlaceArg = map[string]int{
-	"updates.difference":          0,
-	"updates.applyDifference":     0,
-	"updates.mergeDifference":     1,
-	"updates.setDifference":       0,
-	"updates.mergeMapDifference":  1,
-	"updates.mutate":              0,
-	"updates.mutateInsert":        0,
-	"updates.mutateDelete":        0,
-	"updates.mutateAdd":           0,
-	"updates.mutateSubtract":      0,
-	"updates.mutateMultiply":      0,
-	"updates.mutateDivide":        0,
-	"updates.mutateModulo":        0,
-	"updates.mergeModifyRow":      2,
-	"updates.mergeRowUpdate":      1,
-	"updates.merge":               1,
+	"updates.difference":         0,
+	"updates.applyDifference":    0,
+	"updates.mergeDifference":    1,
+	"updates.setDifference":      0,
+	"updates.mergeMapDifference": 1,
+	"updates.mutate":             0,
+	"updates.mutateInsert":       0,
+	"updates.mutateDelete":       0,
+	"updates.mutateAdd":          0,
+	"updates.mutateSubtract":     0,
+	"updates.mutateMultiply":     0,
+	"updates.mutateDivide":       0,
+	"updates.mutateModulo":       0,
+	"updates.mergeModifyRow":     2,
+	"updates.mergeRowUpdate":     1,
+	"updates.merge":              1,
 }
 
 // infoWrapsFresh: v is a *mapper.Info built from a fresh model in the same
@@ -1549,9 +1549,9 @@ func ruleTSCAN(p *Program, r *Reporter) {
 	}
 	// find the scan: if <elem>.Error != "" { return } inside a loop whose header dominates the targets
 	type scan struct {
-		iff      *ssa.If
-		bad, ok  *ssa.BasicBlock
-		header   *ssa.BasicBlock
+		iff     *ssa.If
+		bad, ok *ssa.BasicBlock
+		header  *ssa.BasicBlock
 	}
 	var scans []scan
 	var partial []string
